@@ -33,7 +33,6 @@ package parser
 //@ specmethod (e EndNode) NodeOK() (r bool) = true
 //@ specmethod (e EndNode) ListSpare() (r int) = 0
 //@ specmethod (e EndNode) ListArr() (r int) = 0
-//@ specmethod (e EndNode) EndsWithin(lo parsley.Pos, hi parsley.Pos) (r bool) = lo <= parsley.Pos(e) && parsley.Pos(e) <= hi
 
 //@ closure Empty$1(ctx *parsley.Context, lrc data.IntMap, pos parsley.Pos) (n parsley.Node, cp data.IntSet, err parsley.Error)
 //@   include parsley.Parser.Parse
